@@ -219,6 +219,19 @@ class ApiCheck(object):
         spec = job['_spec']
         index = job['_index']
         if 'harness_error' in res:
+            if spec.get('sched', {}).get('gran') == 'opcode' and 'wait status' in res['harness_error'] and not job.get('_retried'):
+                # CPython 3.12.1 can crash (SIGSEGV in the monitoring machinery) when f_trace_opcodes is switched on in
+                # one thread while another executes the same code object.  That is the interpreter, not the package:
+                # the run is repeated at line granularity and the crash is counted.
+                self.stats['opcode_interpreter_crashes'] = self.stats.get('opcode_interpreter_crashes', 0) + 1
+                self.pool.harness_errors = [e for e in self.pool.harness_errors if e['job'] != job.get('_label')]
+                spec2 = copy.deepcopy(spec)
+                spec2['sched']['gran'] = 'line'
+                job2 = dict(spec2)
+                job2.update({'_hs': job['_hs'], '_ref_hs': job['_ref_hs'], '_index': index, '_meta': job['_meta'], '_cb': self.on_run,
+                             '_label': job['_label'], '_spec': spec2, '_retried': True})
+                self.pool.submit(job2)
+                return
             self.rep.harness_error('run %d: %s' % (index, res['harness_error'][-400:]))
             return
         rcs = [apigen.ref_call_for(spec, i) for i in range(len(spec['calls']))]
@@ -533,6 +546,7 @@ class ApiCheck(object):
             'probes': self.probes,
             'probes_stuck_at_zero': sorted(k for k, v in self.probes.items() if v == 0),
             'inconclusive_resource': st['inconclusive_resource'], 'step_cap_runs': st['step_cap'],
+            'opcode_runs_repeated_at_line_granularity_after_interpreter_crash': st.get('opcode_interpreter_crashes', 0),
             'i3_hash_seed_checks': st['i3_checks'],
             'fresh_interpreter_crosschecks': st['fresh_interpreter_crosschecks'],
             'fresh_interpreter_mismatch': st['fresh_interpreter_mismatch'],
